@@ -75,9 +75,9 @@ m = {
            "source_commits": hooks, "add_only": True},
  "engines": [{"name": "tlc-seq", "path": "/verif/spec", "serves_properties": sorted(p for p, (f, _) in CLAIMS.items() if f == "seq"),
               "kind_free_text": "RosmarStore/RosmarSeq/GenSeq/SeqTrace TLA+ modules + Go harness (vh seq)"},
-             {"name": "tlc-conc", "path": "/verif/spec", "serves_properties": ["C02", "C03", "C08", "C09", "C15", "C18"],
+             {"name": "tlc-conc", "path": "/verif/spec", "serves_properties": ["C01", "C02", "C03", "C08", "C09", "C15", "C16", "C18"],
               "kind_free_text": "RosmarConc TLA+ module (schedules), gate scheduler + vh conc, SeqTrace feeds-line validation"},
-             {"name": "tlc-life", "path": "/verif/spec", "serves_properties": ["C11", "C13", "C16", "C20"],
+             {"name": "tlc-life", "path": "/verif/spec", "serves_properties": ["C11", "C13", "C15", "C16", "C19", "C20"],
               "kind_free_text": "RosmarLifeOps/RosmarLife/LifeTrace TLA+ modules + vh life"},
              {"name": "tlc-view", "path": "/verif/spec", "serves_properties": ["C12"], "kind_free_text": "RosmarView/ViewTrace + vh view (clock standing still)"},
              {"name": "tlc-hlc", "path": "/verif/spec", "serves_properties": ["C04"], "kind_free_text": "RosmarHLC/HLCTrace + vh hlc (injected clock)"},
